@@ -29,12 +29,38 @@ import (
 	"verifharness/internal/vmrun"
 )
 
+// extLookup is the host's external lookup of the "ext" cases: the listed names are 99, nothing else is known.
+type extLookup struct{ names map[string]bool }
+
+func (x *extLookup) Get(n string) (reflect.Value, error) {
+	if x.names[n] {
+		return reflect.ValueOf(int64(99)), nil
+	}
+	return reflect.Value{}, fmt.Errorf("undefined symbol '%s'", n)
+}
+func (x *extLookup) Type(n string) (reflect.Type, error) {
+	return nil, fmt.Errorf("undefined type '%s'", n)
+}
+
+func extSetup(names []string) vmrun.Setup {
+	if len(names) == 0 {
+		return nil
+	}
+	x := &extLookup{names: map[string]bool{}}
+	for _, n := range names {
+		x.names[n] = true
+	}
+	return func(e *env.Env) { e.SetExternalLookup(x) }
+}
+
 type Case struct {
 	ID        string        `json:"id"`
 	Src       string        `json:"src"` // raw source instead of prog (isolation-only cases)
 	Prog      []interface{} `json:"prog"`
 	Exp       *vmrun.Obs    `json:"exp"`
 	Unordered bool          `json:"unordered"`
+	// names resolved (each to int64 99) by an external lookup the host installs on the outermost scope
+	Ext []string `json:"ext"`
 	// the concurrent runs come BEFORE the sequential ones: whatever the interpreter builds on first use is then first used concurrently
 	ConcFirst bool `json:"concfirst"`
 	// environments that differ in what the type name "num" means: the same tree is run in each of them
@@ -293,7 +319,7 @@ func main() {
 		obs := make([]vmrun.Obs, 2+nconc)
 		sequential := func() {
 			for k := 0; k < 2; k++ {
-				obs[k], _ = vmrun.Run(context.Background(), stmt, nil)
+				obs[k], _ = vmrun.Run(context.Background(), stmt, extSetup(c.Ext))
 				sum.Runs++
 				if d := vmrun.Digest(stmt); d != d0 {
 					add(Mismatch{ID: c.ID, Kind: "isolation", What: fmt.Sprintf("tree digest changed by run %d", k+1), Src: src})
@@ -307,7 +333,7 @@ func main() {
 				wg.Add(1)
 				go func(k int, s ast.Stmt) {
 					defer wg.Done()
-					obs[2+k], _ = vmrun.Run(context.Background(), s, nil)
+					obs[2+k], _ = vmrun.Run(context.Background(), s, extSetup(c.Ext))
 				}(k, stmt)
 			}
 			wg.Wait()
